@@ -51,16 +51,16 @@ func registerTimeIntrinsics(reg func(string, intrinsicFn)) {
 	reg("time.Since", func(w *World, th *Thread, fn *ssa.Function, args []Value) Value {
 		now := intrinsics["time.Now"](w, th, fn, nil)
 		d := w.binop(token.SUB, i64, timeMs(now), timeMs(args[0]))
-		return w.binop(token.MUL, i64, d, int64(1_000_000))
+		return w.scale(d, 1_000_000)
 	})
 	reg("time.Until", func(w *World, th *Thread, fn *ssa.Function, args []Value) Value {
 		now := intrinsics["time.Now"](w, th, fn, nil)
 		d := w.binop(token.SUB, i64, timeMs(args[0]), timeMs(now))
-		return w.binop(token.MUL, i64, d, int64(1_000_000))
+		return w.scale(d, 1_000_000)
 	})
 	reg("(time.Time).Sub", func(w *World, th *Thread, fn *ssa.Function, args []Value) Value {
 		d := w.binop(token.SUB, i64, timeMs(args[0]), timeMs(args[1]))
-		return w.binop(token.MUL, i64, d, int64(1_000_000))
+		return w.scale(d, 1_000_000)
 	})
 	reg("(time.Time).Add", func(w *World, th *Thread, fn *ssa.Function, args []Value) Value {
 		dms := w.binop(token.QUO, i64, args[1], int64(1_000_000))
